@@ -375,10 +375,30 @@ class Interp:
             raise Undecided("an unconditional raise is reached")
         if isinstance(s, ast.Pass):
             return
+        if isinstance(s, ast.AnnAssign) and s.value is None:
+            return
+        if isinstance(s, ast.Assert):
+            return          # accepted inputs pass assertions
+        if isinstance(s, (ast.Import, ast.ImportFrom, ast.Global, ast.Nonlocal)):
+            return
+        if isinstance(s, ast.Delete):
+            for t in s.targets:
+                if isinstance(t, ast.Name):
+                    env.pop(t.id, None)
+                else:
+                    raise Undecided(f"del `{norm(t)[:40]}`")
+            return
+        if isinstance(s, ast.Try):
+            # exceptions mean rejected inputs: the normal path is the body, the else-branch and the finaliser
+            self.block(s.body, env)
+            self.block(s.orelse, env)
+            self.block(s.finalbody, env)
+            return
         if isinstance(s, ast.With):
             if all(isinstance(i.context_expr, ast.Call) and norm(i.context_expr.func) in ("np.errstate", "warnings.catch_warnings")
                    and i.optional_vars is None for i in s.items):
-                self.block(s.body, env)
+                self.block([x for x in s.body if not (isinstance(x, ast.Expr) and isinstance(x.value, ast.Call)
+                                                       and norm(x.value.func).startswith("warnings."))], env)
                 return
         raise Undecided(f"statement `{norm(s)[:60]}`")
 
